@@ -67,6 +67,9 @@ func Main(args []string) int {
 	case "B":
 		edges = WalkB(lg, graphs)
 		DriveB(lg, *seed, *runs, *steps)
+	case "C":
+		edges = WalkC(lg, graphs)
+		DriveC(lg, *seed, *runs, *steps)
 	default:
 		fmt.Fprintln(os.Stderr, "unknown world", *world)
 		return 2
